@@ -45,7 +45,7 @@ DiffG(a, b) == LET rest == SelectSeq(a.tr, LAMBDA t : ~InSeq(t, b.tr))
                    occurs == {rest[i][1] : i \in DOMAIN rest} \cup {rest[i][3] : i \in DOMAIN rest}
                IN [tr |-> rest, xtop |-> IF a.xtop \in occurs THEN a.xtop ELSE NULL,
                    em |-> Restrict(a.em, (DOMAIN a.em) \ Range(b.tr))]
-\* act: [op, i, j, top, g]; result: [pool, res]
+\* act: [op, i, j, k, top, g | tr]; result: [pool, res]
 Apply(pool, act) ==
     CASE act.op = "new" -> [pool |-> Append(pool, act.g), res |-> "ok"]
       [] act.op = "settop" ->
@@ -55,7 +55,15 @@ Apply(pool, act) ==
       [] act.op = "ior" -> [pool |-> [pool EXCEPT ![act.i] = UnionG(pool[act.i], pool[act.j])], res |-> "ok"]
       [] act.op = "sub" -> [pool |-> Append(pool, DiffG(pool[act.i], pool[act.j])), res |-> "ok"]
       [] act.op = "isub" -> [pool |-> [pool EXCEPT ![act.i] = DiffG(pool[act.i], pool[act.j])], res |-> "ok"]
-InPlace(op) == op \in {"settop", "ior", "isub"}
+      \* the triple list is a public attribute and may be edited in place: position k is overwritten (or the triple is
+      \* appended when k is past the end); the editor removes the markers of a triple that no longer occurs; every later
+      \* query reads the list as it then stands
+      [] act.op = "edit" ->
+            LET g == pool[act.i]  t == act.tr[1]
+                ntr == IF act.k <= Len(g.tr) THEN [g.tr EXCEPT ![act.k] = t] ELSE Append(g.tr, t)
+                gone == IF act.k <= Len(g.tr) /\ ~InSeq(g.tr[act.k], ntr) THEN {g.tr[act.k]} ELSE {}
+            IN [pool |-> [pool EXCEPT ![act.i] = [tr |-> ntr, xtop |-> g.xtop, em |-> Restrict(g.em, (DOMAIN g.em) \ gone)]], res |-> "ok"]
+InPlace(op) == op \in {"settop", "ior", "isub", "edit"}
 
 (* ---- the clauses of property C15 as predicates over one graph ---- *)
 RECURSIVE SubSeqOf(_, _, _, _)
